@@ -129,7 +129,7 @@ def run_case(case, ctx):
             ctx.count("unjudged_float_evals")
     # scalar vs sequence dispatch
     nums = [lib.num(u, nt) for u in params]
-    for mk, label in ((tuple, "tuple"), (list, "list")):
+    for mk, label in ((tuple, "tuple"), (list, "list"), (lambda x: lib.container(x, "array"), "numpy array")):
         o = call(curve.eval, mk(nums))
         if not ctx.check(o.ok, f"eval:seq-raises:{o.exc_name}", f"curve.eval({label} of valid nodes) raised {o.brief()}"):
             continue
@@ -141,6 +141,23 @@ def run_case(case, ctx):
                     continue
                 ctx.check(lib.digest(a) == lib.digest(b) or (not exact and lib.pts_close(a, lib.pt_tuple(b), 1e-12)),
                           "eval:seq-order", f"sequence result at u={u} differs from the scalar call: {lib.short(a)} vs {lib.short(b)}")
+    # nodes of one call may come in any order (and repeated)
+    import random as _random
+
+    order = list(range(len(nums)))
+    _random.Random(len(nums) * 7919 + len(U)).shuffle(order)
+    for label, idxs_ in (("reversed", list(range(len(nums)))[::-1]), ("shuffled", order + order[:3])):
+        o = call(curve.eval, [nums[i] for i in idxs_])
+        if not ctx.check(o.ok, f"eval:seq-raises:{o.exc_name}", f"curve.eval({label} valid nodes) raised {o.brief()}"):
+            continue
+        res = o.value
+        if ctx.check(isinstance(res, (tuple, list)) and len(res) == len(idxs_), "eval:seq-shape", f"{label} sequence of {len(idxs_)} nodes gave a result of other length"):
+            for i, a in zip(idxs_, res):
+                b = scalar_results[i] if i < len(scalar_results) else None
+                if b is None:
+                    continue
+                ctx.check(lib.digest(a) == lib.digest(b) or (not exact and lib.pts_close(a, lib.pt_tuple(b), 1e-12)),
+                          f"eval:seq-order:{label}", f"{label} sequence: result at u={params[i]} differs from the scalar call: {lib.short(a)} vs {lib.short(b)}")
     # outside and non numbers
     state0 = lib.curve_digest(curve)
     for u in lib.dec(case["outside"]):
